@@ -947,7 +947,9 @@ func (h *histRun) checkCounters(c *WSClient, snap server.VerifConnSnap, now int6
 			}
 			// finding C: a deleted subscription that is populated again is
 			// re-sent, counting its references a second time
-			revived := h.hasNote("populate.deleted", c.CID, rid)
+			// (the revived subscription may be gone by now: any revival on
+			// this connection counts)
+			revived := h.hasConnNote("populate.deleted", c.CID)
 			// an event processed on an unsent subscription of this connection
 			// may have added or removed a reference to this one meanwhile
 			unsent := h.hasConnNote("sub.eventUnsent", c.CID)
@@ -1103,7 +1105,11 @@ func (h *histRun) checkQuiescent(final bool) {
 			h.stat("c01_compared", 1)
 			if !JSONEqual(exp, got) {
 				sig := "diverged"
-				if h.hasNote("populate.deleted", c.CID, rid) {
+				if res.MissedStray {
+					// finding K: the copy came with a get response and the events
+					// the gateway flushed after it were not for a held resource
+					sig = "diverged.afterGet"
+				} else if h.hasNote("populate.deleted", c.CID, rid) {
 					// finding C: revived from the snapshot of before the delete
 					// event (the service has recreated the resource since); the
 					// revived subscription gets no events
